@@ -181,3 +181,441 @@ Section Composition.
     apply (keep_by_map render (gsame OpsR) str_eqb D render_faithful (@gisnan R) (str_eqb nan_str)); assumption.
   Qed.
 End Composition.
+
+(* ========================================================================================== *)
+(* a carrier morphism commutes with the evaluator                                               *)
+
+Section Morphism.
+  Context {T1 T2 : Type} (O1 : Ops T1) (O2 : Ops T2) (phi : T1 -> T2).
+  Hypothesis h_ofQ : forall q, phi (o_ofQ O1 q) = o_ofQ O2 q.
+  Hypothesis h_add : forall a b, phi (o_add O1 a b) = o_add O2 (phi a) (phi b).
+  Hypothesis h_mul : forall a b, phi (o_mul O1 a b) = o_mul O2 (phi a) (phi b).
+  Hypothesis h_opp : forall a, phi (o_opp O1 a) = o_opp O2 (phi a).
+  Hypothesis h_div : forall a b, is_zero O1 b = false -> phi (o_div O1 a b) = o_div O2 (phi a) (phi b).
+  Hypothesis h_ltb : forall a b, o_ltb O2 (phi a) (phi b) = o_ltb O1 a b.
+  Hypothesis h_eqb : forall a b, o_eqb O2 (phi a) (phi b) = o_eqb O1 a b.
+  Hypothesis h_sqrt : forall a r, is_neg O1 a = false -> o_sqrt O1 a = Some r -> o_sqrt O2 (phi a) = Some (phi r).
+  Hypothesis h_ln : forall a r, is_neg O1 a = false -> is_zero O1 a = false -> o_ln O1 a = Some r ->
+                                o_ln O2 (phi a) = Some (phi r).
+  Hypothesis h_rnd : forall d a, phi (o_rnd O1 d a) = o_rnd O2 d (phi a).
+
+  Notation gm := (gmap phi).
+
+  Lemma m_is_zero : forall v, is_zero O2 (phi v) = is_zero O1 v.
+  Proof. intros. unfold is_zero, zeroT. rewrite <- h_ofQ. apply h_eqb. Qed.
+  Lemma m_is_neg : forall v, is_neg O2 (phi v) = is_neg O1 v.
+  Proof. intros. unfold is_neg, zeroT. rewrite <- h_ofQ. apply h_ltb. Qed.
+  Lemma m_fin : forall v z, gm (fin O1 v z) = fin O2 (phi v) z.
+  Proof. intros. unfold fin. cbn [gmap]. rewrite m_is_zero. reflexivity. Qed.
+  Lemma m_sgn : forall x, sgn O2 (gm x) = sgn O1 x.
+  Proof. intros [v z| |n]; cbn [sgn gmap]; [rewrite m_is_neg|..]; reflexivity. Qed.
+  Lemma m_gzero : forall x, gzero O2 (gm x) = gzero O1 x.
+  Proof. intros [v z| |n]; cbn [gzero gmap]; [rewrite m_is_zero|..]; reflexivity. Qed.
+  Lemma m_gisnan : forall x, gisnan (gm x) = gisnan x.
+  Proof. intros [v z| |n]; reflexivity. Qed.
+
+  Lemma m_gneg : forall x, gm (gneg O1 x) = gneg O2 (gm x).
+  Proof. intros [v z| |n]; cbn [gneg gmap]; [rewrite m_fin, h_opp|..]; reflexivity. Qed.
+
+  Lemma m_gadd : forall x y, gm (gadd O1 x y) = gadd O2 (gm x) (gm y).
+  Proof.
+    intros [a za| |na] [b zb| |nb]; cbn [gadd gmap]; try reflexivity.
+    - rewrite m_fin, h_add. reflexivity.
+    - destruct (Bool.eqb na nb); reflexivity.
+  Qed.
+
+  Lemma m_gsub : forall x y, gm (gsub O1 x y) = gsub O2 (gm x) (gm y).
+  Proof. intros. unfold gsub. rewrite m_gadd, m_gneg. reflexivity. Qed.
+
+  Lemma m_gmul : forall x y, gm (gmul O1 x y) = gmul O2 (gm x) (gm y).
+  Proof.
+    intros x y.
+    pose proof (m_sgn x) as Sx. pose proof (m_sgn y) as Sy.
+    pose proof (m_gzero x) as Zx. pose proof (m_gzero y) as Zy.
+    destruct x as [a za| |na], y as [b zb| |nb]; cbn [gmul gmap] in *; try reflexivity.
+    1: { rewrite m_fin, h_mul, Sx, Sy. reflexivity. }
+    all: rewrite ?Zx, ?Zy, ?Sx, ?Sy;
+      match goal with |- context [if ?c then _ else _] => destruct c end; reflexivity.
+  Qed.
+
+  Lemma m_gdiv : forall x y, gm (gdiv O1 x y) = gdiv O2 (gm x) (gm y).
+  Proof.
+    intros x y.
+    pose proof (m_sgn x) as Sx. pose proof (m_sgn y) as Sy.
+    destruct x as [a za| |na], y as [b zb| |nb]; cbn [gdiv gmap] in *; try reflexivity.
+    - rewrite !m_is_zero. destruct (is_zero O1 b) eqn:Zb.
+      + destruct (is_zero O1 a); [reflexivity|]. cbn [gmap]. rewrite Sx, Sy. reflexivity.
+      + rewrite m_fin, h_div by exact Zb. rewrite Sx, Sy. reflexivity.
+    - rewrite m_fin. unfold zeroT. rewrite h_ofQ, Sx. reflexivity.
+    - rewrite Sy. reflexivity.
+  Qed.
+
+  Lemma m_gabs : forall x, gm (gabs O1 x) = gabs O2 (gm x).
+  Proof.
+    intros [v z| |n]; cbn [gabs gmap]; try reflexivity.
+    rewrite m_fin, m_is_neg. destruct (is_neg O1 v); [rewrite h_opp|]; reflexivity.
+  Qed.
+
+  Lemma m_gsqrt : forall x r, gsqrt O1 x = Some r -> gsqrt O2 (gm x) = Some (gm r).
+  Proof.
+    intros [v z| |n] r; cbn [gsqrt gmap]; intros H.
+    - rewrite m_is_neg, m_is_zero. destruct (is_neg O1 v) eqn:Nv; [injection H as <-; reflexivity|].
+      destruct (is_zero O1 v); [injection H as <-; reflexivity|].
+      destruct (o_sqrt O1 v) as [s|] eqn:E; [|discriminate]. injection H as <-.
+      rewrite (h_sqrt v s Nv E), m_fin. reflexivity.
+    - injection H as <-. reflexivity.
+    - injection H as <-. destruct n; reflexivity.
+  Qed.
+
+  Lemma m_glog : forall x r, glog O1 x = Some r -> glog O2 (gm x) = Some (gm r).
+  Proof.
+    intros [v z| |n] r; cbn [glog gmap]; intros H.
+    - rewrite m_is_neg, m_is_zero. destruct (is_neg O1 v) eqn:Nv; [injection H as <-; reflexivity|].
+      destruct (is_zero O1 v) eqn:Zv; [injection H as <-; reflexivity|].
+      destruct (o_ln O1 v) as [s|] eqn:E; [|discriminate]. injection H as <-.
+      rewrite (h_ln v s Nv Zv E), m_fin. reflexivity.
+    - injection H as <-. reflexivity.
+    - injection H as <-. destruct n; reflexivity.
+  Qed.
+
+  Lemma m_gpow : forall x n, gm (gpow O1 x n) = gpow O2 (gm x) n.
+  Proof.
+    induction n as [|n IH]; cbn [gpow gmap].
+    - unfold oneT. rewrite h_ofQ. reflexivity.
+    - rewrite m_gmul, IH. reflexivity.
+  Qed.
+
+  Lemma m_ground : forall d x, gm (ground O1 d x) = ground O2 d (gm x).
+  Proof.
+    intros d x. pose proof (m_sgn x) as Sx.
+    destruct x as [v z| |n]; cbn [ground gmap] in *; try reflexivity.
+    rewrite m_fin, h_rnd, Sx. reflexivity.
+  Qed.
+
+  Lemma m_gltb : forall x y, gltb O2 (gm x) (gm y) = gltb O1 x y.
+  Proof. intros [a za| |na] [b zb| |nb]; cbn [gltb gmap]; try reflexivity. apply h_ltb. Qed.
+  Lemma m_gnumeq : forall x y, gnumeq O2 (gm x) (gm y) = gnumeq O1 x y.
+  Proof. intros [a za| |na] [b zb| |nb]; cbn [gnumeq gmap]; try reflexivity. apply h_eqb. Qed.
+  Lemma m_gcmp : forall c x y, gcmp O2 c (gm x) (gm y) = gcmp O1 c x y.
+  Proof. intros c x y. destruct c; cbn [gcmp]; rewrite ?m_gltb, ?m_gnumeq; reflexivity. Qed.
+  Lemma m_gsame : forall x y, gsame O2 (gm x) (gm y) = gsame O1 x y.
+  Proof. intros [a za| |na] [b zb| |nb]; cbn [gsame gmap]; try reflexivity. rewrite h_eqb. reflexivity. Qed.
+
+  Lemma m_gmax2 : forall a y, gm (gmax2 O1 a y) = gmax2 O2 (gm a) (gm y).
+  Proof.
+    intros a y. unfold gmax2. rewrite !m_gisnan, m_gltb.
+    destruct (gisnan a); [reflexivity|]. destruct (gisnan y); [reflexivity|]. destruct (gltb O1 a y); reflexivity.
+  Qed.
+
+  Lemma m_gmaxl : forall xs r, gmaxl O1 xs = Some r -> gmaxl O2 (map gm xs) = Some (gm r).
+  Proof.
+    intros [|y ys] r H; [discriminate|]. cbn [gmaxl map] in *. injection H as <-. f_equal.
+    revert y. induction ys as [|z ys IH]; intros y; cbn [fold_left map]; [reflexivity|].
+    rewrite <- m_gmax2. apply IH.
+  Qed.
+
+  Lemma geval_morph : forall e xs x v,
+    geval O1 e xs x = Some v -> geval O2 e (map gm xs) (gm x) = Some (gm v).
+  Proof.
+    induction e; intros xs x v H; cbn [geval] in *.
+    - injection H as <-. reflexivity.
+    - injection H as <-. cbn [gmap]. rewrite h_ofQ. reflexivity.
+    - destruct (geval O1 e1 xs x) as [u|] eqn:E1; [|discriminate]. destruct (geval O1 e2 xs x) as [w|] eqn:E2; [|discriminate].
+      cbn [obind] in *. injection H as <-. rewrite (IHe1 _ _ _ E1), (IHe2 _ _ _ E2). cbn [obind]. rewrite m_gadd. reflexivity.
+    - destruct (geval O1 e1 xs x) as [u|] eqn:E1; [|discriminate]. destruct (geval O1 e2 xs x) as [w|] eqn:E2; [|discriminate].
+      cbn [obind] in *. injection H as <-. rewrite (IHe1 _ _ _ E1), (IHe2 _ _ _ E2). cbn [obind]. rewrite m_gsub. reflexivity.
+    - destruct (geval O1 e1 xs x) as [u|] eqn:E1; [|discriminate]. destruct (geval O1 e2 xs x) as [w|] eqn:E2; [|discriminate].
+      cbn [obind] in *. injection H as <-. rewrite (IHe1 _ _ _ E1), (IHe2 _ _ _ E2). cbn [obind]. rewrite m_gmul. reflexivity.
+    - destruct (geval O1 e1 xs x) as [u|] eqn:E1; [|discriminate]. destruct (geval O1 e2 xs x) as [w|] eqn:E2; [|discriminate].
+      cbn [obind] in *. injection H as <-. rewrite (IHe1 _ _ _ E1), (IHe2 _ _ _ E2). cbn [obind]. rewrite m_gdiv. reflexivity.
+    - destruct (geval O1 e xs x) as [u|] eqn:E1; [|discriminate]. cbn [obind] in *. injection H as <-.
+      rewrite (IHe _ _ _ E1). cbn [obind]. rewrite m_gneg. reflexivity.
+    - destruct (geval O1 e xs x) as [u|] eqn:E1; [|discriminate]. cbn [obind] in *.
+      rewrite (IHe _ _ _ E1). cbn [obind]. apply m_gsqrt. exact H.
+    - destruct (geval O1 e xs x) as [u|] eqn:E1; [|discriminate]. cbn [obind] in *.
+      rewrite (IHe _ _ _ E1). cbn [obind]. apply m_glog. exact H.
+    - destruct (geval O1 e xs x) as [u|] eqn:E1; [|discriminate]. cbn [obind] in *. injection H as <-.
+      rewrite (IHe _ _ _ E1). cbn [obind]. rewrite m_gabs. reflexivity.
+    - destruct (geval O1 e xs x) as [u|] eqn:E1; [|discriminate]. cbn [obind] in *. injection H as <-.
+      rewrite (IHe _ _ _ E1). cbn [obind]. rewrite m_gpow. reflexivity.
+    - destruct (geval O1 e xs x) as [u|] eqn:E1; [|discriminate]. cbn [obind] in *. injection H as <-.
+      rewrite (IHe _ _ _ E1). cbn [obind]. rewrite m_ground. reflexivity.
+    - destruct (geval O1 e1 xs x) as [u|] eqn:E1; [|discriminate]. destruct (geval O1 e2 xs x) as [w|] eqn:E2; [|discriminate].
+      cbn [obind] in *. rewrite (IHe1 _ _ _ E1), (IHe2 _ _ _ E2). cbn [obind]. rewrite m_gcmp.
+      destruct (gcmp O1 c u w); [apply IHe3 | apply IHe4]; exact H.
+    - apply m_gmaxl. exact H.
+  Qed.
+End Morphism.
+
+(* ========================================================================================== *)
+(* Q computes R                                                                                  *)
+Local Open Scope R_scope.
+
+Lemma Qltb_Rltb : forall a b, Rltb (Q2R a) (Q2R b) = Qltb a b.
+Proof.
+  intros a b. unfold Qltb. destruct (Qcompare_spec a b) as [H|H|H].
+  - apply Rltb_false. rewrite (Qeq_eqR _ _ H). lra.
+  - apply Rltb_true. apply Qlt_Rlt. exact H.
+  - apply Rltb_false. apply Rlt_le. apply Qlt_Rlt. exact H.
+Qed.
+
+Lemma Qeqb_Reqb : forall a b, Reqb (Q2R a) (Q2R b) = Qeq_bool a b.
+Proof.
+  intros a b. destruct (Qeq_bool a b) eqn:E.
+  - apply Reqb_true. apply Qeq_eqR. apply Qeq_bool_eq. exact E.
+  - apply Reqb_false. intros H. apply eqR_Qeq in H. apply Qeq_eq_bool in H. congruence.
+Qed.
+
+Lemma Q2R_IZR : forall z, Q2R (inject_Z z) = IZR z.
+Proof. intros. apply Q2R_int. Qed.
+
+Lemma Zsqrt_exact_spec : forall z s, Zsqrt_exact z = Some s -> (0 <= s /\ s * s = z)%Z.
+Proof.
+  intros z s H. unfold Zsqrt_exact in H. destruct (Z.eqb_spec (Z.sqrt z * Z.sqrt z) z) as [E|E]; [|discriminate].
+  injection H as <-. split; [apply Z.sqrt_nonneg | exact E].
+Qed.
+
+Lemma Qsqrt_exact_R : forall q r, Qsqrt_exact q = Some r -> sqrt (Q2R q) = Q2R r.
+Proof.
+  intros q r H. unfold Qsqrt_exact in H.
+  destruct (Zsqrt_exact (Qnum (Qred q))) as [a|] eqn:Ea; [|discriminate].
+  destruct (Zsqrt_exact (Zpos (Qden (Qred q)))) as [b|] eqn:Eb; [|discriminate].
+  destruct (Z.eqb_spec b 0) as [Zb|Zb]; [discriminate|]. injection H as <-.
+  apply Zsqrt_exact_spec in Ea. apply Zsqrt_exact_spec in Eb. destruct Ea as [Pa Ea]. destruct Eb as [Pb Eb].
+  assert (Bp : (0 < b)%Z) by lia.
+  rewrite <- (Qeq_eqR _ _ (Qred_correct q)).
+  unfold Q2R. cbn [Qnum Qden]. rewrite <- Ea, <- Eb. rewrite Z2Pos.id by exact Bp. rewrite !mult_IZR.
+  assert (Rb : 0 < IZR b) by (apply IZR_lt; exact Bp).
+  assert (Ra : 0 <= IZR a) by (apply IZR_le; exact Pa).
+  replace (IZR a * IZR a * / (IZR b * IZR b)) with ((IZR a * / IZR b) * (IZR a * / IZR b)) by (field; lra).
+  apply sqrt_square. apply Rmult_le_pos; [exact Ra|]. apply Rlt_le. apply Rinv_0_lt_compat. exact Rb.
+Qed.
+
+Lemma Int_part_unique : forall r z, IZR z <= r < IZR z + 1 -> Int_part r = z.
+Proof.
+  intros r z [H1 H2]. unfold Int_part.
+  assert (E : (z + 1)%Z = up r) by (apply up_tech; [exact H1 | rewrite plus_IZR; exact H2]).
+  rewrite <- E. lia.
+Qed.
+
+Lemma Qfloor_Int_part : forall q, Int_part (Q2R q) = Qfloor q.
+Proof.
+  intros q. apply Int_part_unique. split.
+  - rewrite <- Q2R_IZR. apply Qle_Rle. apply Qfloor_le.
+  - replace (IZR (Qfloor q) + 1) with (IZR (Qfloor q + 1)) by (rewrite plus_IZR; reflexivity).
+    rewrite <- Q2R_IZR. apply Qlt_Rlt. apply Qlt_floor.
+Qed.
+
+Lemma rheQ_rhe : forall q, rhe (Q2R q) = rheQ q.
+Proof.
+  intros q. unfold rhe, rheQ. rewrite Qfloor_Int_part.
+  set (f := Qfloor q).
+  assert (E : Q2R q - IZR f = Q2R (q - inject_Z f)).
+  { unfold Qminus. rewrite Q2R_plus, Q2R_opp, Q2R_IZR. reflexivity. }
+  rewrite E.
+  assert (H12 : Q2R (1 # 2) = 1 / 2) by (unfold Q2R; cbn; lra).
+  rewrite <- H12.
+  destruct (Qcompare_spec (q - inject_Z f) (1 # 2)) as [H|H|H].
+  - rewrite (Qeq_eqR _ _ H).
+    destruct (Rlt_dec (Q2R (1 # 2)) (Q2R (1 # 2))); [lra|]. reflexivity.
+  - apply Qlt_Rlt in H. destruct (Rlt_dec (Q2R (q - inject_Z f)) (Q2R (1 # 2))); [reflexivity | contradiction].
+  - apply Qlt_Rlt in H. destruct (Rlt_dec (Q2R (q - inject_Z f)) (Q2R (1 # 2))); [lra|].
+    destruct (Rlt_dec (Q2R (1 # 2)) (Q2R (q - inject_Z f))); [reflexivity | contradiction].
+Qed.
+
+Lemma pow10_pos : forall d, (0 < 10 ^ Z.of_nat d)%Z.
+Proof. intros. apply Z.pow_pos_nonneg; lia. Qed.
+
+Lemma rndQ_rnd : forall d q, Q2R (rndQ d q) = rnd d (Q2R q).
+Proof.
+  intros d q. unfold rndQ, rnd.
+  assert (P : Q2R (inject_Z (10 ^ Z.of_nat d)) = 10 ^ d).
+  { rewrite Q2R_IZR. rewrite <- pow_IZR. reflexivity. }
+  rewrite Q2R_div.
+  - rewrite Q2R_IZR, P. rewrite <- rheQ_rhe. rewrite Q2R_mult, P. reflexivity.
+  - intros H. apply Qeq_eqR in H. rewrite P in H. unfold Q2R in H. cbn in H.
+    assert (0 < 10 ^ d) by (apply pow_lt; lra). lra.
+Qed.
+
+Lemma Qis_zero : forall b, is_zero OpsQ b = false -> ~ (b == 0)%Q.
+Proof.
+  intros b H E. unfold is_zero, zeroT in H. cbn in H. apply Qeq_eq_bool in E. congruence.
+Qed.
+
+(* the executable instance answers what the specification says, wherever it answers *)
+Lemma denQ_sound : forall e xs x v,
+  denQ e xs x = Some v -> den3 e (map (gmap Q2R) xs) (gmap Q2R x) = Some (gmap Q2R v).
+Proof.
+  unfold denQ, den3. apply (geval_morph OpsQ OpsR Q2R); cbn.
+  - reflexivity.
+  - apply Q2R_plus.
+  - apply Q2R_mult.
+  - apply Q2R_opp.
+  - intros a b H. apply Q2R_div. apply Qis_zero. exact H.
+  - apply Qltb_Rltb.
+  - apply Qeqb_Reqb.
+  - intros a r _ H. f_equal. apply Qsqrt_exact_R. exact H.
+  - intros a r _ _ H. unfold Qln_exact in H. destruct (Qeq_bool a 1) eqn:E; [|discriminate]. injection H as <-.
+    apply Qeq_bool_eq in E. rewrite (Qeq_eqR _ _ E). f_equal.
+    replace (Q2R 1) with 1 by (unfold Q2R; cbn; lra). replace (Q2R 0) with 0 by (unfold Q2R; cbn; lra). apply ln_1.
+  - intros d a. apply rndQ_rnd.
+Qed.
+
+Lemma gsame_Q2R : forall a b, gsame OpsR (gmap Q2R a) (gmap Q2R b) = gsame OpsQ a b.
+Proof.
+  intros [a za| |na] [b zb| |nb]; cbn [gsame gmap]; try reflexivity. cbn. rewrite Qeqb_Reqb. reflexivity.
+Qed.
+
+Lemma pres_val_Q2R : forall p, pres_val OpsR p = option_map (gmap Q2R) (pres_val OpsQ p).
+Proof.
+  intros [q neg| |neg|]; cbn [pres_val option_map]; try reflexivity.
+  destruct neg; [|reflexivity]. f_equal.
+  change (gneg OpsR (gmap Q2R (GFin q false)) = gmap Q2R (gneg OpsQ (GFin q false))).
+  symmetry. apply (m_gneg OpsQ OpsR Q2R); cbn.
+  - reflexivity.
+  - apply Q2R_opp.
+  - apply Qeqb_Reqb.
+Qed.
+
+Lemma all_some_map_option : forall A B (g : A -> B) (l : list (option A)),
+  all_some (map (option_map g) l) = option_map (map g) (all_some l).
+Proof.
+  induction l as [|[a|] l IH]; cbn [all_some map option_map]; [reflexivity | | reflexivity].
+  rewrite IH. destruct (all_some l); reflexivity.
+Qed.
+
+Lemma parse_column_Q2R : forall cells,
+  parse_column OpsR cells = option_map (map (gmap Q2R)) (parse_column OpsQ cells).
+Proof.
+  intros. unfold parse_column. rewrite <- all_some_map_option, map_map. f_equal.
+  apply map_ext. intros s. apply pres_val_Q2R.
+Qed.
+
+(* soundness of the executable keep decision: if [keepQ e cells] answers b, then in the specification model
+   (real arithmetic, any text rendering that is faithful on the values of this column) the transformed column
+   of e is kept iff b *)
+Lemma keepQ_sound : forall (render : gval R -> str) (D : gval R -> Prop),
+  (forall a b, D a -> D b -> str_eqb (render a) (render b) = gsame OpsR a b) ->
+  (forall a, D a -> str_eqb nan_str (render a) = gisnan a) ->
+  forall e cells b, keepQ e cells = Some b ->
+  exists xs vs, parse_column OpsR cells = Some xs
+    /\ map (den3 e xs) xs = map Some vs
+    /\ rendered_column render e xs = Some (map render vs)
+    /\ (Forall D vs -> keep_spec (map render vs) = b).
+Proof.
+  intros render D Hf Hn e cells b H. unfold keepQ in H.
+  destruct (parse_column OpsQ cells) as [xq|] eqn:Ep; [|discriminate].
+  destruct (all_some (map (fun x => denQ e xq x) xq)) as [vq|] eqn:Ev; [|discriminate].
+  injection H as <-. apply all_some_spec in Ev.
+  exists (map (gmap Q2R) xq), (map (gmap Q2R) vq).
+  split; [rewrite parse_column_Q2R, Ep; reflexivity|].
+  assert (Hv : map (den3 e (map (gmap Q2R) xq)) (map (gmap Q2R) xq) = map Some (map (gmap Q2R) vq)).
+  { rewrite !map_map.
+    assert (G : forall l w, map (fun x => denQ e xq x) l = map Some w ->
+                map (fun x => den3 e (map (gmap Q2R) xq) (gmap Q2R x)) l = map (fun x => Some (gmap Q2R x)) w).
+    { induction l as [|x l IH]; intros [|y w] Hw; cbn [map] in *; try discriminate; [reflexivity|].
+      injection Hw as Hx Hw. rewrite (denQ_sound _ _ _ _ Hx), (IH _ Hw). reflexivity. }
+    apply G. exact Ev. }
+  split; [exact Hv|]. split.
+  - unfold rendered_column. apply all_some_spec.
+    rewrite <- (map_map (den3 e (map (gmap Q2R) xq)) (option_map render)), Hv, !map_map. reflexivity.
+  - intros Hd. rewrite (keep_text_iff_classes render D Hf Hn) by exact Hd.
+    apply (keep_by_map (gmap Q2R) (gsame OpsQ) (gsame OpsR) (fun _ => True)).
+    + intros. apply gsame_Q2R.
+    + intros [v z| |n] _; reflexivity.
+    + apply Forall_forall. intros; exact I.
+Qed.
+
+(* ========================================================================================== *)
+(* on finite data, den3 refines den: wherever the formula has a real value in the sense of       *)
+(* Transform.den (every intermediate result finite), den3 yields that finite value               *)
+
+Definition isfin (g : gval R) (r : R) : Prop := exists z, g = GFin r z.
+
+Lemma Q2R_0 : Q2R 0 = 0. Proof. unfold Q2R; cbn; lra. Qed.
+Lemma Q2R_1 : Q2R 1 = 1. Proof. unfold Q2R; cbn; lra. Qed.
+
+Lemma fin_isfin : forall v z, isfin (fin OpsR v z) v.
+Proof. intros. unfold fin. eexists; reflexivity. Qed.
+
+Lemma is_zero_R : forall v, is_zero OpsR v = Reqb v 0.
+Proof. intros. unfold is_zero, zeroT. cbn. rewrite Q2R_0. reflexivity. Qed.
+Lemma is_neg_R : forall v, is_neg OpsR v = Rltb v 0.
+Proof. intros. unfold is_neg, zeroT. cbn. rewrite Q2R_0. reflexivity. Qed.
+
+Lemma gcmp_fin : forall c u v zu zv, gcmp OpsR c (GFin u zu) (GFin v zv) = cmpR c u v.
+Proof.
+  intros. destruct c; cbn [gcmp gltb gnumeq cmpR OpsR o_ltb o_eqb]; try reflexivity.
+  - destruct (Rltb_cases u v) as [[A ->]|[A ->]]; destruct (Rltb_cases v u) as [[B ->]|[B ->]];
+      destruct (Reqb_cases u v) as [[C ->]|[C ->]]; cbn; try reflexivity; exfalso; lra.
+  - destruct (Rltb_cases u v) as [[A ->]|[A ->]]; destruct (Rltb_cases v u) as [[B ->]|[B ->]];
+      destruct (Reqb_cases u v) as [[C ->]|[C ->]]; cbn; try reflexivity; exfalso; lra.
+Qed.
+
+Lemma gpow_fin : forall u z n, isfin (gpow OpsR (GFin u z) n) (u ^ n).
+Proof.
+  induction n as [|n IH]; cbn [gpow pow].
+  - unfold oneT. cbn. rewrite Q2R_1. eexists; reflexivity.
+  - destruct IH as [z' ->]. cbn [gmul OpsR o_mul]. rewrite Rmult_comm. apply fin_isfin.
+Qed.
+
+Lemma gmax_fold_fin : forall ys ys3 y y3, Forall2 isfin ys3 ys -> isfin y3 y ->
+  isfin (fold_left (gmax2 OpsR) ys3 y3) (fold_left Rmax ys y).
+Proof.
+  induction ys as [|a ys IH]; intros ys3 y y3 H Hy; inversion H; subst; cbn [fold_left]; [exact Hy|].
+  apply IH; [assumption|].
+  destruct Hy as [zy ->]. match goal with H : isfin _ a |- _ => destruct H as [za ->] end.
+  unfold gmax2. cbn [gisnan gltb OpsR o_ltb]. unfold Rmax.
+  destruct (Rltb_cases y a) as [[A ->]|[A ->]]; destruct (Rle_dec y a) as [B|B]; try (eexists; reflexivity); try (exfalso; lra).
+  assert (y = a) by lra. subst. eexists; reflexivity.
+Qed.
+
+Lemma den_den3 : forall e xs xs3 x x3 r,
+  Forall2 isfin xs3 xs -> isfin x3 x -> den e xs x = Some r -> exists g, den3 e xs3 x3 = Some g /\ isfin g r.
+Proof.
+  unfold den3. induction e; intros xs xs3 x x3 r Hxs Hx H; cbn [den geval] in *.
+  - injection H as <-. eexists; split; [reflexivity | exact Hx].
+  - injection H as <-. eexists; split; [reflexivity | eexists; reflexivity].
+  - destruct (den e1 xs x) as [u|] eqn:E1; [|discriminate]. destruct (den e2 xs x) as [v|] eqn:E2; [|discriminate].
+    cbn [olift2] in H. injection H as <-.
+    destruct (IHe1 _ _ _ _ _ Hxs Hx E1) as [g1 [-> [z1 ->]]]. destruct (IHe2 _ _ _ _ _ Hxs Hx E2) as [g2 [-> [z2 ->]]].
+    cbn [obind gadd]. eexists; split; [reflexivity | apply fin_isfin].
+  - destruct (den e1 xs x) as [u|] eqn:E1; [|discriminate]. destruct (den e2 xs x) as [v|] eqn:E2; [|discriminate].
+    cbn [olift2] in H. injection H as <-.
+    destruct (IHe1 _ _ _ _ _ Hxs Hx E1) as [g1 [-> [z1 ->]]]. destruct (IHe2 _ _ _ _ _ Hxs Hx E2) as [g2 [-> [z2 ->]]].
+    cbn [obind gsub gneg gadd fin]. eexists; split; [reflexivity|]. cbn [OpsR o_add o_opp]. apply fin_isfin.
+  - destruct (den e1 xs x) as [u|] eqn:E1; [|discriminate]. destruct (den e2 xs x) as [v|] eqn:E2; [|discriminate].
+    cbn [olift2] in H. injection H as <-.
+    destruct (IHe1 _ _ _ _ _ Hxs Hx E1) as [g1 [-> [z1 ->]]]. destruct (IHe2 _ _ _ _ _ Hxs Hx E2) as [g2 [-> [z2 ->]]].
+    cbn [obind gmul]. eexists; split; [reflexivity | apply fin_isfin].
+  - destruct (den e1 xs x) as [u|] eqn:E1; [|discriminate]. destruct (den e2 xs x) as [v|] eqn:E2; [|discriminate].
+    destruct (Reqb v 0) eqn:Zv; [discriminate|]. injection H as <-.
+    destruct (IHe1 _ _ _ _ _ Hxs Hx E1) as [g1 [-> [z1 ->]]]. destruct (IHe2 _ _ _ _ _ Hxs Hx E2) as [g2 [-> [z2 ->]]].
+    cbn [obind gdiv]. rewrite is_zero_R, Zv. eexists; split; [reflexivity | apply fin_isfin].
+  - destruct (den e xs x) as [u|] eqn:E1; [|discriminate]. cbn [olift1] in H. injection H as <-.
+    destruct (IHe _ _ _ _ _ Hxs Hx E1) as [g1 [-> [z1 ->]]]. cbn [obind gneg]. eexists; split; [reflexivity | apply fin_isfin].
+  - destruct (den e xs x) as [u|] eqn:E1; [|discriminate]. destruct (Rltb u 0) eqn:Nu; [discriminate|]. injection H as <-.
+    destruct (IHe _ _ _ _ _ Hxs Hx E1) as [g1 [-> [z1 ->]]]. cbn [obind gsqrt]. rewrite is_neg_R, Nu, is_zero_R.
+    destruct (Reqb_cases u 0) as [[Z ->]|[Z ->]].
+    + subst u. rewrite sqrt_0. eexists; split; [reflexivity | eexists; reflexivity].
+    + cbn [OpsR o_sqrt]. eexists; split; [reflexivity | apply fin_isfin].
+  - destruct (den e xs x) as [u|] eqn:E1; [|discriminate]. destruct (Rltb_cases 0 u) as [[P Pu]|[P Pu]]; rewrite Pu in H; [|discriminate].
+    injection H as <-.
+    destruct (IHe _ _ _ _ _ Hxs Hx E1) as [g1 [-> [z1 ->]]]. cbn [obind glog]. rewrite is_neg_R, is_zero_R.
+    rewrite Rltb_false by lra. rewrite Reqb_false by lra. cbn [OpsR o_ln]. eexists; split; [reflexivity | apply fin_isfin].
+  - destruct (den e xs x) as [u|] eqn:E1; [|discriminate]. cbn [olift1] in H. injection H as <-.
+    destruct (IHe _ _ _ _ _ Hxs Hx E1) as [g1 [-> [z1 ->]]]. cbn [obind gabs]. rewrite is_neg_R.
+    eexists; split; [reflexivity|].
+    destruct (Rltb_cases u 0) as [[A ->]|[A ->]]; cbn [OpsR o_opp].
+    + rewrite Rabs_left by lra. apply fin_isfin.
+    + rewrite Rabs_right by lra. apply fin_isfin.
+  - destruct (den e xs x) as [u|] eqn:E1; [|discriminate]. cbn [olift1] in H. injection H as <-.
+    destruct (IHe _ _ _ _ _ Hxs Hx E1) as [g1 [-> [z1 ->]]]. cbn [obind]. eexists; split; [reflexivity | apply gpow_fin].
+  - destruct (den e xs x) as [u|] eqn:E1; [|discriminate]. cbn [olift1] in H. injection H as <-.
+    destruct (IHe _ _ _ _ _ Hxs Hx E1) as [g1 [-> [z1 ->]]]. cbn [obind ground]. eexists; split; [reflexivity | apply fin_isfin].
+  - destruct (den e1 xs x) as [u|] eqn:E1; [|discriminate]. destruct (den e2 xs x) as [v|] eqn:E2; [|discriminate].
+    destruct (IHe1 _ _ _ _ _ Hxs Hx E1) as [g1 [-> [z1 ->]]]. destruct (IHe2 _ _ _ _ _ Hxs Hx E2) as [g2 [-> [z2 ->]]].
+    cbn [obind]. rewrite gcmp_fin. destruct (cmpR c u v); [eapply IHe3 | eapply IHe4]; eassumption.
+  - destruct xs as [|y ys]; [discriminate|]. cbn [list_max] in H. injection H as <-.
+    inversion Hxs; subst. cbn [gmaxl]. eexists; split; [reflexivity|]. apply gmax_fold_fin; assumption.
+Qed.
